@@ -5,7 +5,7 @@ const repo = process.env.VERIF_REPO || '/repo';
 const mod = require(path.join(__dirname, process.argv[2] + '.js'));
 let on_uncaught = null;
 let late_uncaught = 0;
-process.on('uncaughtException', (e) => {
+if (!mod.handles_uncaught) process.on('uncaughtException', (e) => {
     // thrown by a stream handler of the code under test: the outcome of the case in progress; a straggler of an earlier case is counted only
     if (on_uncaught !== null) { const f = on_uncaught; on_uncaught = null; f(e); } else { late_uncaught += 1; }
 });
